@@ -28,6 +28,17 @@ fn main() {
     if prop == "C15-procdigest" {
         std::process::exit(props::c15::proc_digest_cmd());
     }
+    if prop == "C16-digests" {
+        let restricted = args.get(2).map(|s| s == "restricted").unwrap_or(true);
+        let k = args.get(3).and_then(|s| s.parse().ok()).unwrap_or(2);
+        std::process::exit(props::c16::digests_cmd(restricted, k, args.get(4).map(|s| s.as_str()).unwrap_or("/dev/stdout")));
+    }
+    if prop == "C16-export" {
+        std::process::exit(props::c16::export_cmd(args.get(2).map(|s| s.as_str()).unwrap_or(".")));
+    }
+    if prop == "C16-import" {
+        std::process::exit(props::c16::import_cmd(args.get(2).map(|s| s.as_str()).unwrap_or("."), args.get(3).map(|s| s.as_str()).unwrap_or("/dev/stdout")));
+    }
     if prop == "selftest" {
         match refmodel::selftest::run() {
             Ok((n, p)) => {
